@@ -43,7 +43,7 @@ const (
 	prop            = "C26"
 	svcID    uint16 = 7
 	srvNode         = transport.NodeID(2)
-	waitLong        = 90 * time.Second
+	waitLong        = 30 * time.Second
 )
 
 // ---- tokens --------------------------------------------------------------------------
@@ -109,6 +109,7 @@ type gateConn struct {
 	holdR       bool
 	holdW       bool
 	dead        bool
+	blockedW    int // Write calls parked at the gate
 	ownerClosed chan struct{}
 	once        sync.Once
 }
@@ -146,10 +147,34 @@ func (g *gateConn) Read(b []byte) (int, error) {
 }
 
 func (g *gateConn) Write(b []byte) (int, error) {
-	if err := g.wait(&g.holdW); err != nil {
+	g.mu.Lock()
+	g.blockedW++
+	g.cond.Broadcast()
+	g.mu.Unlock()
+	err := g.wait(&g.holdW)
+	g.mu.Lock()
+	g.blockedW--
+	g.mu.Unlock()
+	if err != nil {
 		return 0, err
 	}
 	return g.Conn.Write(b)
+}
+
+// awaitBlockedWrite waits until the connection's writer is parked at the write gate.
+func (g *gateConn) awaitBlockedWrite(d time.Duration) bool {
+	deadline := time.Now().Add(d)
+	g.mu.Lock()
+	defer g.mu.Unlock()
+	for !(g.holdW && g.blockedW > 0) && !g.dead {
+		if time.Now().After(deadline) {
+			return false
+		}
+		t := time.AfterFunc(50*time.Millisecond, func() { g.mu.Lock(); g.cond.Broadcast(); g.mu.Unlock() })
+		g.cond.Wait()
+		t.Stop()
+	}
+	return !g.dead
 }
 
 // Close is what the transport calls when it shuts the connection down.
@@ -420,7 +445,7 @@ func (r *replay) arrived(step int, name string) bool {
 	}
 }
 
-func runReplay(b kit.Behaviour, rep *kit.Report) {
+func runReplay(b kit.Behaviour, rep *kit.Report) (clean bool) {
 	w, err := newWorld(true, 1)
 	if err != nil {
 		rep.Infra("replay: cannot start transport: %v", err)
@@ -442,7 +467,13 @@ func runReplay(b kit.Behaviour, rep *kit.Report) {
 				p, err := w.cli.Call(ctx, srvNode, 0, transport.PriorityRPC, svcID, tokenOf(name))
 				c.done <- classify(p, err)
 			}()
-			if kit.Bool(ev, "reach") && !r.arrived(si, name) {
+			if kit.Bool(ev, "reach") {
+				if !r.arrived(si, name) {
+					return
+				}
+			} else if g := w.current(); g == nil || !g.awaitBlockedWrite(waitLong) {
+				// writes are held: the request must have reached the socket before the next step
+				r.diverge(si, "the request of "+name+" did not reach the held socket")
 				return
 			}
 		case "Respond":
@@ -538,15 +569,16 @@ func runReplay(b kit.Behaviour, rep *kit.Report) {
 			return
 		}
 	}
+	return !r.bad
 }
 
 // ---- Method B: free-running histories -------------------------------------------------------
 
 type logger struct {
-	mu                              sync.Mutex
-	rec                             *kit.Recorder
-	called, served, ok, fail, ret   map[string]bool
-	produced                        map[string]string // name -> "ok"/"fail" once Done was logged
+	mu                            sync.Mutex
+	rec                           *kit.Recorder
+	called, served, ok, fail, ret map[string]bool
+	closed                        bool
 }
 
 func newLogger(rec *kit.Recorder) *logger {
@@ -567,6 +599,10 @@ func (l *logger) begin() {
 // log writes one event; upd mutates the history sets under the same lock.
 func (l *logger) log(ev map[string]any, upd func()) {
 	l.mu.Lock()
+	if l.closed { // the history is over (a late timer or a handler that outlived its connection)
+		l.mu.Unlock()
+		return
+	}
 	if upd != nil {
 		upd()
 	}
@@ -691,6 +727,9 @@ func runHistory(rep *kit.Report, rec *kit.Recorder, seed int64, workers, perWork
 	wg.Wait()
 	close(stop)
 	rwg.Wait()
+	lg.mu.Lock()
+	lg.closed = true
+	lg.mu.Unlock()
 	// the payloads handed to the callers must still be what they were
 	for _, k := range keeps {
 		if !bytes.Equal(k.payload, tokenOf(k.name)) {
@@ -716,12 +755,17 @@ func TestVerifRpcPending(t *testing.T) {
 	if err != nil {
 		rep.Infra("load behaviours: %v", err)
 	}
+	diverged := 0
 	for bi, b := range behs {
 		if len(b.Steps) == 0 || kit.Str(b.Steps[0].Ev, "a") != "Init" {
 			rep.Infra("behaviour %d does not start with Init", bi)
 			continue
 		}
-		runReplay(b, rep)
+		if !runReplay(b, rep) {
+			if diverged++; diverged >= 3 {
+				break
+			}
+		}
 		rep.Replayed(len(b.Steps) - 1)
 		if bi == 0 {
 			rep.Sample(b)
